@@ -122,7 +122,7 @@ for kind, payload in SPEC["args"]:
             LAYOUT.append({"k": "D", "v": _alloc([[0, MAXDUR]]),
                            "u": _alloc([[u, u] for u in SPEC["units"]] if SPEC.get("units") else [[0, len(UNITS) - 1]])})
 # reference time: first or last day of the cell month (concrete on each path), any time of day
-TS_DAYS = [1, MDC]
+TS_DAYS = [1] if SPEC.get("ts_days") == "first" else [1, MDC]
 TS_SLOTS = [_alloc([[0, len(TS_DAYS) - 1]]), _alloc([[0, 23]]), _alloc([[0, 59]]), _alloc([[0, 59]])]
 
 
